@@ -13,7 +13,7 @@ PART = {}
 META = {
     'engine': 'E1 CrossHair 0.0.110 + z3',
     'functions': ['vermouth.parser_utils._tokenize', 'vermouth.ffinput._treat_atom_prefix', 'vermouth.ffinput.read_ff',
-                  'FFDirector.parse_header', 'FFDirector.finalize_section', 'vermouth.gmx.itp_read.read_itp'],
+                  'FFDirector.parse_header', 'FFDirector.finalize_section', 'vermouth.gmx.itp_read.read_itp', 'vermouth.map_input._compute_weights'],
     'bounds': {
         'quick': 'tokenizer: every line of length <= 5 over the alphabet the tokenizer distinguishes {a, space, {, }, -}; atom '
                  'prefixes: prefix kind x length 1..3 with symbolic explicit order in -4..4 (the code renders it as a run of +/- characters) and base name len<=2; '
@@ -26,7 +26,7 @@ META = {
     'assumptions': ['attribute tokens go through json.loads (C boundary) and are concrete snippets',
                     'the file-level oracle knows what every snippet declares (atoms, edges, interactions, non-edges, patterns, '
                     'features) and requires each declared object exactly once, in file order'],
-    'outside': ['the shipped force-field data files', '.map/.mapping readers (not encoded at this commit)'],
+    'outside': ['the shipped force-field data files', '.map/.mapping file grammar beyond the weight computation'],
 }
 
 ALPHABET = 'a {}-'
@@ -162,6 +162,7 @@ GLY 1
 BB SC1 1 0.25 1000
 #meta {"group": "g"}
 1 2 2 0.3 500 {"comment": "c", "version": 1}
+SC1 BB 3 0.4 50 {"group": "own"}
 ''', kind='block', name='GLY'),
     'block2': dict(text='''[ moleculetype ]
 ALA 1
@@ -282,7 +283,8 @@ def check_ff_file(s0: int, s1: int, s2: int, s3: int, s4: int, fault_at: int) ->
             return 'block atoms/attributes differ from the declaration'
         bonds = [(tuple(i.atoms), tuple(i.parameters), i.meta) for i in block.interactions['bonds']]
         if bonds != [(('BB', 'SC1'), ('1', '0.25', '1000'), {}),
-                     (('BB', 'SC1'), ('2', '0.3', '500'), {'group': 'g', 'comment': 'c', 'version': 1})]:
+                     (('BB', 'SC1'), ('2', '0.3', '500'), {'group': 'g', 'comment': 'c', 'version': 1}),
+                     (('SC1', 'BB'), ('3', '0.4', '50'), {'group': 'own'})]:      # per-line metadata wins over #meta
             return 'block interactions (parameters, per-line and #meta metadata, versions) differ from the declaration'
         if not block.has_edge('BB', 'SC1') or block.nrexcl != 1:
             return 'block edges / nrexcl differ from the declaration'
@@ -349,6 +351,38 @@ def check_itp_file(n1: int, n2: int, a: int, b: int) -> str:
     return ok()
 
 
+def check_weights(n_p: int, n_q: int, n_null: int) -> str:
+    """
+    pre: 0 <= n_p <= 3 and 0 <= n_q <= 3 and 0 <= n_null <= 2
+    pre: n_p + n_q >= 1
+    post: _ == ''
+    """
+    # backward-style .map line for atom A: target P written n_p times, Q n_q times, R marked null ('!R') n_null times;
+    # atom B maps once to P.  Weights reflect the multiplicity (n / sum n) and '!' gives weight 0.
+    from vermouth.map_input import _compute_weights
+    targets = ['P'] * n_p + ['Q'] * n_q + ['!R'] * n_null
+    weights = _compute_weights({'A': targets, 'B': ['P']}, 'mol')
+    total = n_p + n_q
+    want = {}
+    if n_p:
+        want.setdefault('P', {})['A'] = n_p / total
+    if n_q:
+        want.setdefault('Q', {})['A'] = n_q / total
+    want.setdefault('P', {})['B'] = 1.0
+    if n_null:
+        want.setdefault('R', {})['A'] = 0
+    got = {k: dict(v) for k, v in weights.items()}
+    if set(got) != set(want):
+        return 'mapping weights name other particles than the line declares'
+    for bead, atoms in want.items():
+        if set(got[bead]) != set(atoms):
+            return 'mapping weights attach other atoms to a particle than declared'
+        for atom, w in atoms.items():
+            if abs(got[bead][atom] - w) > 1e-9:
+                return 'mapping weight does not reflect the multiplicity / null marker written'
+    return ok()
+
+
 def warmup():
     global PART
     saved = PART
@@ -364,6 +398,7 @@ def warmup():
     check_ff_file(0, 1, 0, 0, 0, 1)
     PART = {'n1': 2, 'n2': 4}
     check_itp_file(2, 4, 3, 4)
+    check_weights(2, 1, 1)
     PART = saved
 
 
@@ -422,6 +457,10 @@ def cases(tier):
         for count in (0, 1, 2):
             out.append({'fn': 'check_ff_file', 'part': {'count': count, 'fault': fault}, 'label': 'ff-fault[%s in %d sections]' % (fault, count),
                         'timeout': 900, 'path_timeout': 30})
+    for n1 in (1, 2, 3):
+        for n2 in (2, 3, 4):
+            pass
+    out.append({'fn': 'check_weights', 'part': {}, 'label': 'map-weights', 'timeout': 600, 'path_timeout': 30})
     for n1 in (1, 2, 3):
         for n2 in (2, 3, 4):
             out.append({'fn': 'check_itp_file', 'part': {'n1': n1, 'n2': n2}, 'label': 'itp[%d+%d atoms]' % (n1, n2), 'timeout': 600,
